@@ -1,6 +1,8 @@
 #include "props.h"
 #include "agg.h"
 
+static void note_run(const RunResult &r, const Plan &p, Verdict &v, Agg *agg);
+
 // ================================================================================================
 // Scenario: CHAOS (all-input properties C01, C05, C09, C10 and the accounting half of C06)
 // ================================================================================================
@@ -1039,6 +1041,79 @@ static bool check_c10_steady(const Plan &p, const RunResult &r, std::string &ora
 }
 
 // ================================================================================================
+// Scenario: C19 parsers sharing one configuration: call-level interleaving, basic-block pre-emption, ownership
+// ================================================================================================
+
+static void c19_plan(Rng &rng, Plan &p) {
+    p.prop = "C19";
+    random_cfg(rng, p.cfg, false);
+    p.cfg.kv.erase("disposal");
+    if (rng.coin()) p.cfg.set("req_decomp", 1);
+    p.cfg.set("res_decomp", 1);
+    int nconn = (int) rng.range(2, 8);
+    p.conns.resize((size_t) nconn);
+    std::vector<std::vector<Op>> per((size_t) nconn);
+    GenFeatures f;
+    for (int c = 0; c < nconn; c++) {
+        ConnPlan &cp = p.conns[(size_t) c];
+        int src = (int) rng.below(10);
+        if (src < 5) { Script s = random_script(rng, f, (int) rng.range(1, 5), 100 * c); build_conn_from_script(rng, s, cp, false); }
+        else if (src < 6) { Script s = connect_script(rng, 100 * c); build_conn_from_script(rng, s, cp, false); }
+        else if (src < 7) {   // compressed response: decompressor state is per connection
+            Script s; MsgSpec q; q.method = "GET"; q.target = strfmt("/id%d/z", 100 * c); { HeaderSpec h; h.name = "Host"; h.value = "c19.example"; q.headers.push_back(h); }
+            MsgSpec r; r.is_request = false; r.status = 200; r.reason = "OK"; Bytes payload; size_t n = (size_t) rng.range(1, 30000); for (size_t i = 0; i < n; i++) payload.push_back((char) ('a' + (i + (size_t) c) % 7));
+            r.body = z_encode(payload, 31, 6, 0); r.payload = payload; { HeaderSpec h; h.name = "Content-Encoding"; h.value = "gzip"; r.headers.push_back(h); } r.framing = FR_CL; { HeaderSpec h; h.name = "Content-Length"; h.value = strfmt("%zu", r.body.size()); r.headers.push_back(h); }
+            s.req.push_back(q); s.res.push_back(r); build_conn_from_script(rng, s, cp, false);
+        } else { std::vector<Op> dummy; conn_from_capture(rng, cp, dummy, c, false); if (rng.chance(1, 3)) mutate_stream(rng, cp.stream[rng.below(2)], 2); }
+        for (auto &x : cp.xchg) x.expect.clear();
+        std::vector<Extent> m0, m1; for (auto &x : cp.xchg) { m0.push_back(x.req); m1.push_back(x.res); }
+        static const size_t MEANS[] = {2, 5, 16, 64, 512};
+        auto c0 = choose_cuts(rng, cp.stream[0], m0, (int) rng.below(ST_ONECUT), MEANS[rng.below(5)]);
+        auto c1 = choose_cuts(rng, cp.stream[1], m1, (int) rng.below(ST_ONECUT), MEANS[rng.below(5)]);
+        interleave_ops(rng, cp, c, c0, c1, 60, !cp.xchg.empty(), false, per[(size_t) c]);
+        if (per[(size_t) c].size() > 300) { per[(size_t) c].clear(); c0 = choose_cuts(rng, cp.stream[0], m0, ST_UNIFORM, 512); c1 = choose_cuts(rng, cp.stream[1], m1, ST_UNIFORM, 512); interleave_ops(rng, cp, c, c0, c1, 60, !cp.xchg.empty(), false, per[(size_t) c]); }
+    }
+    // call-level interleaving of the connections (used when the plan runs on one thread)
+    std::vector<size_t> idx((size_t) nconn, 0);
+    for (;;) { std::vector<int> live; for (int c = 0; c < nconn; c++) if (idx[(size_t) c] < per[(size_t) c].size()) live.push_back(c); if (live.empty()) break; int c = live[rng.below(live.size())]; p.ops.push_back(per[(size_t) c][idx[(size_t) c]++]); }
+    if (rng.chance(2, 3)) {   // one thread per connection under the baton scheduler, pre-emption every ~mean basic blocks
+        p.scenario = "threads"; p.threads = nconn; p.sched_seed = (long) (rng.next() & 0x7fffffff);
+        static const long M[] = {3, 10, 40, 200, 2000}; p.sched_mean = M[rng.below(5)];
+    } else p.scenario = "calls";
+}
+
+static Plan solo_plan(const Plan &p, size_t c) {
+    Plan q; q.prop = p.prop; q.scenario = "solo"; q.seed = p.seed; q.cfg = p.cfg;
+    q.conns.push_back(p.conns[c]);
+    for (auto &op : p.ops) if (op.conn == (int) c) { Op o = op; o.conn = 0; q.ops.push_back(o); }
+    return q;
+}
+
+static void eval_c19(const Plan &p, Verdict &v, Agg *agg) {
+    RunResult all; execute_plan(p, all); note_run(all, p, v, agg);
+    v.nontrivial = all.st.tx_completed >= 1;
+    if (p.threads) v.sig ^= all.sched_hash;
+    auto fail = [&](const std::string &o, const std::string &d) { v.violated = true; v.oracle = o; v.detail = d; };
+    for (auto &x : all.viol) if (x.prop == "C19") { fail(x.oracle, x.detail); return; }
+    for (auto &x : all.viol) if (x.prop == "C01" && x.oracle != "C01.leak") { fail("C19.via." + x.oracle, x.detail); return; }
+    if (agg) { agg->inc(p.threads ? "c19.threaded_runs" : "c19.call_interleaved_runs"); agg->inc("fault.sched.switches", all.sched_switches); agg->inc("c19.ownership_checks", all.access_checks); agg->inc("c19.connections", p.conns.size()); }
+    // each connection must report exactly what it reports when it runs alone
+    for (size_t c = 0; c < p.conns.size(); c++) {
+        Plan q = solo_plan(p, c);
+        RunResult solo; execute_plan(q, solo); v.executions++; if (agg) agg->add_run(solo);
+        const std::vector<int> &ta = all.conns[c].txs, &tb = solo.conns[0].txs;
+        if (ta.size() != tb.size()) { fail("C19.isolation.tx_count", strfmt("connection %zu: %zu transactions with the others, %zu alone", c, ta.size(), tb.size())); return; }
+        for (size_t i = 0; i < ta.size(); i++) {
+            const TxRec &x = all.txs[(size_t) ta[i]], &y = solo.txs[(size_t) tb[i]];
+            std::string d = dump_first_diff(y.dump, x.dump, false);
+            if (!d.empty()) { std::string k = d; for (auto &ch : k) if (isdigit((unsigned char) ch)) ch = 'N'; fail("C19.isolation." + k, strfmt("connection %zu tx %zu %s differs from the solo run", c, i, d.c_str())); return; }
+            if (x.body[0] != y.body[0] || x.body[1] != y.body[1]) { fail("C19.isolation.body", strfmt("connection %zu tx %zu", c, i)); return; }
+            if (x.cbseq_full != y.cbseq_full) { fail("C19.isolation.callback_sequence", strfmt("connection %zu tx %zu: with others %s alone %s", c, i, x.cbseq_full.c_str(), y.cbseq_full.c_str())); return; }
+        }
+    }
+}
+
+// ================================================================================================
 // Scenario: C11 ambiguity indicators (trigger applied by the actor => flag must be set)
 // ================================================================================================
 
@@ -1108,7 +1183,7 @@ static void c11_plan(Rng &rng, Plan &p, uint64_t variant) {
     }
     // re-establish the relative order of the trigger's own fields
     if (add.size() >= 2) {
-        std::vector<size_t> pos; for (size_t i = 0; i < q.headers.size(); i++) for (auto &h : add) if (&h != nullptr && q.headers[i].name == h.name && q.headers[i].value == h.value && q.headers[i].folds == h.folds) { pos.push_back(i); break; }
+        std::vector<size_t> pos; for (size_t i = 0; i < q.headers.size(); i++) for (auto &h : add) if (q.headers[i].name == h.name && q.headers[i].value == h.value && q.headers[i].folds == h.folds) { pos.push_back(i); break; }
         std::sort(pos.begin(), pos.end()); pos.erase(std::unique(pos.begin(), pos.end()), pos.end());
         if (pos.size() == add.size()) for (size_t i = 0; i < add.size(); i++) q.headers[pos[i]] = add[i];
     }
@@ -1311,7 +1386,7 @@ std::string plan_trigger(const Plan &p) {
 }
 
 bool is_known_property(const std::string &prop) {
-    static const char *P[] = {"C01", "C02", "C03", "C04", "C05", "C06", "C07", "C08", "C09", "C10", "C11", "C14", "C15", "C16", "C18"};
+    static const char *P[] = {"C01", "C02", "C03", "C04", "C05", "C06", "C07", "C08", "C09", "C10", "C11", "C14", "C15", "C16", "C18", "C19"};
     for (auto q : P) if (prop == q) return true;
     return false;
 }
@@ -1329,6 +1404,7 @@ bool generate_plan(const std::string &prop, uint64_t seed, Plan &out) {
     else if (prop == "C15") c15_plan(rng, out);
     else if (prop == "C08") c08_plan(rng, out, seed);
     else if (prop == "C18") c18_plan(rng, out);
+    else if (prop == "C19") c19_plan(rng, out);
     else if (prop == "C14") c14_plan(rng, out);
     else if (prop == "C07") { if (seed % 4 == 3) { chaos_plan(rng, out, "C07"); out.cfg.set("res_decomp", 1); if (rng.coin()) { static const long B[] = {1024, 4096, 65536}; out.cfg.set("bomb_limit", B[rng.below(3)]); } } else c07_plan(rng, out, seed / 4); }
     else return false;
@@ -1415,6 +1491,7 @@ Verdict evaluate_plan(const Plan &p, Agg *agg) {
     if (prop == "C15") { eval_c15(p, v, agg); return v; }
     if (prop == "C08") { eval_c08(p, v, agg); return v; }
     if (prop == "C18") { eval_c18(p, v, agg); return v; }
+    if (prop == "C19") { eval_c19(p, v, agg); return v; }
     if (prop == "C14") { eval_c14(p, v, agg); return v; }
     if (prop == "C07") {
         RunResult r; execute_plan(p, r); note_run(r, p, v, agg);
